@@ -31,7 +31,7 @@ TECHNIQUE = ("contract VCs: replace() run on a corpus (derivatives, restrictions
 LEVEL_TEXT = "All-values proofs per (expression, mapping); corpus and mappings enumerated."
 LEVEL_NOTE = "Trusted: ufv/den.py (substitution realised by redefining atoms in the world), z3."
 TRUSTED = ["ufv/den.py", "z3, ufv/alg.py"]
-ASSUMPTIONS = ["finite corpus and mapping family", "real mode", "base-form operators (ExternalOperator, Interpolate) are checked structurally only"]
+ASSUMPTIONS = ["finite corpus and mapping family", "real mode", "base-form operators (ExternalOperator, Interpolate) are checked relative to the terminal rule (an operator key is replaced like a coefficient key), not against a denotation"]
 EXPLANATION = ("replace() is value-correct for all terminal values on every corpus expression and mapping: mapped terminals take the "
                "value of their image (also under grad, restriction, variable); unmapped expressions are returned unchanged; shape-changing "
                "mappings are refused.")
@@ -188,6 +188,55 @@ def build(run):
                     return res
         return proved("exec+z3", vcs=n + 1, sample="shape-changing mappings raise; unexpanded derivatives are expanded before replacing, wherever they sit")
     run.add("replace/shape-and-derivative-guards", shapes, kind="values")
+
+    # ---- base form operators (ExternalOperator, Interpolate) as KEYS of the mapping and as containers of mapped terminals.  They have no denotation in the
+    # specification, so the contract is relative: an expression built around the operator N and the same expression built around a stand-in coefficient c must be
+    # replaced alike -- replace(e[N], {N: img}) == replace(e[c], {c: img}) for every image, in particular zero images -- and inside N the operands are replaced
+    # while the operator's data (function space, derivatives, argument slots) stays
+    def base_form_operators():
+        import ufl as _ufl
+        from ufl import ExternalOperator, Interpolate
+        t_ = corpus.terminals()
+        msh = t_["msh"]
+        V_ = f.ufl_function_space()
+        ctx = [("N", lambda x_: x_), ("N*g + f", lambda x_: x_ * g + f), ("sin(N)*N", lambda x_: ufl.sin(x_) * x_), ("grad(N*g)[0]", lambda x_: ufl.grad(x_ * g)[0]),
+               ("conditional(N < g, N, f)", lambda x_: ufl.conditional(ufl.lt(x_, g), x_, f)), ("as_vector([N, g])[1] + N('+')", lambda x_: as_vector([x_, g])[1] + x_("+"))]
+        images = [("g", lambda: g), ("2*g", lambda: 2 * g), ("Zero()", lambda: C.Zero()), ("0*g", lambda: 0 * g), ("IntValue(1)", lambda: C.IntValue(1)), ("FloatValue(0.5)", lambda: C.FloatValue(0.5))]
+        makers = [("ExternalOperator", lambda: ExternalOperator(f, g, function_space=V_)), ("ExternalOperator with derivatives", lambda: ExternalOperator(f, g, function_space=V_, derivatives=(1, 0))),
+                  ("Interpolate", lambda: Interpolate(f * g, V_))]
+        n = 0
+        for mname, mkN in makers:
+            Nop = mkN()
+            c_ = _ufl.Coefficient(V_)
+            for cname, cx in ctx:
+                for iname, mkimg in images:
+                    img = mkimg()
+                    try:
+                        got = replace(cx(Nop), {Nop: img})
+                        want = replace(cx(c_), {c_: img})
+                    except (ValueError, TypeError) as ex:
+                        if deliberate(ex):
+                            continue
+                        return violated(f"replace of a {mname} by {iname} in {cname} crashed: {crash_text(ex)}", reproduced=True, backend="exec")
+                    n += 1
+                    if not (got == want):
+                        return violated(f"replace({cname}, {{N: {iname}}}) with N a {mname} gives {str(got)[:160]}; the same expression around a coefficient c with {{c: {iname}}} gives {str(want)[:160]}",
+                                        replay={"operator": mname, "context": cname, "image": iname, "got": str(got)[:600], "want": str(want)[:600]}, reproduced=True, backend="exec")
+            # inside the operator: operands are replaced, the data stays
+            got = replace(Nop * f, {f: g})
+            inner_ops = [nd for nd in ufl.corealg.traversal.unique_pre_traversal(got) if isinstance(nd, type(Nop))]
+            n += 1
+            if len(inner_ops) != 1:
+                return violated(f"replace({mname}(f, ...)*f, {{f: g}}) contains {len(inner_ops)} operators of that kind: {got}", reproduced=True, backend="exec")
+            N2 = inner_ops[0]
+            if any(f == x_ for nd in N2.ufl_operands for x_ in ufl.corealg.traversal.unique_pre_traversal(nd)):
+                return violated(f"replace({mname}(f, ...)*f, {{f: g}}) left f inside the operator: {N2}", replay={"operator": mname, "result": str(got)}, reproduced=True, backend="exec")
+            same_data = (N2.ufl_function_space() == Nop.ufl_function_space() and getattr(N2, "derivatives", None) == getattr(Nop, "derivatives", None)
+                         and len(N2.argument_slots()) == len(Nop.argument_slots()))
+            if not same_data:
+                return violated(f"replace({mname}(f, ...)*f, {{f: g}}) changed the operator's data: {Nop!r} -> {N2!r}", replay={"operator": mname}, reproduced=True, backend="exec")
+        return proved("exec(relative to the terminal rule)", vcs=n, sample=f"{n} (operator kind, context, image) cases: an operator key is replaced exactly like a coefficient key, zero images included")
+    run.add("replace/base-form-operators-as-keys-and-containers", base_form_operators, kind="values")
 
     # ---- images that are constant on each cell, under every differential operator, for fields whose value shape differs from the geometric dimension (the
     # node is rebuilt around the image and may fold to a zero: shape and value of the expression are those of the operator applied to the image)
